@@ -25,6 +25,7 @@ func (Driver) Info() core.Info {
 		Rule: "three case kinds over a fixed family of Go types (every numeric kind, string, bool, named types, slices, arrays, string-keyed maps, tagged structs nested, " +
 			"structs as tuples, pointers to each, cty.Value leaves, big.Int/big.Float). (a) round trip: reflection-generated Go value g -> ImpliedType (checked against the documented mapping) " +
 			"-> ToCtyValue (checked: the cty value carries g exactly) -> FromCtyValue into a zero or a previously populated target -> compared with g, nil-ness significant. " +
+			"The same round trip, with name-agnostic comparisons (attributes paired off with tagged fields), over 17 more Go types whose struct tags are not plain names (comma, option-looking suffix, spaces, punctuation, non-ASCII, escapes). " +
 			"(b) number x numeric target: boundary corpus (limits of every width +-1 and +-fraction, float32/float64 range edges, half-ulp bands, float32 midpoints, denormals, huge, infinite) " +
 			"and random numbers x every numeric target type (and pointers to them); accept/refuse compared with an exact-rational reference, stored value compared with the exact value / correct rounding. " +
 			"(c) value x target: encodings of family values (also mutated: sub-values replaced by unknown / null / other numbers; lists as sets), values generated for the target's natural type and arbitrary values " +
@@ -82,6 +83,7 @@ func (Driver) Run(c *core.Ctx) {
 	}
 	// seed-independent enumerations, split between the batches
 	runEnumerations(c, fam, nts)
+	runTagCases(c, 5_000_000_000)
 	if c.Batch == 0 {
 		runCorpus(c, 3_000_000_000)
 	}
